@@ -23,6 +23,11 @@ Failing cleanly:
 * `configure_fails_cleanly_partial`      decision table of `API.configure`: result, 141 or 2 — no other exception (domain `cfgDom`)
 * `configure_nonStringKey_counterexample`  the hole outside `cfgDom` is real
 * `configure_missing_first`, `configure_ok_is_merge`
+* `encodable_combine`, `unencodable_override_stays`, `assign_assign`, `badKeys_nil_iff`
+* `configure_checks_the_merge`, `configure_unencodable_options_refused`, `overridden_file_text_not_refused`
+                                         a text that is not valid Unicode (lone surrogate) is refused with 141 whichever source delivered it —
+                                         file, options dictionary, `-o` —, the check being made on the merge: a text of the file that an
+                                         option replaces does not count
 * `parse_unready_refused`, `parse_without_generate_refused`, `generate_unready_refused`, `generate_unconfigured_refused`
                                          incompletely configured targets are refused with 141, unknown ones with 120
 * `generate_fails_cleanly_partial`, `generate_glue_without_cpp_counterexample`   domain `readyDom` and its hole
@@ -915,9 +920,11 @@ theorem configure_fails_cleanly_partial (validate : Validate) (env dotenv : Kids
     by_cases ho : options.isEmpty = true
     · simp [ho]
     · simp only [ho]
-      by_cases hv : validate (effective (combine options []) env dotenv) = true
-      · left; exact ⟨_, by simp [hv], hv⟩
-      · right; left; simp [hv]
+      by_cases he : encodableKids (combine options []) = true
+      · by_cases hv : validate (effective (combine options []) env dotenv) = true
+        · left; exact ⟨_, by simp [hv, he], hv⟩
+        · right; left; simp [hv, he]
+      · right; left; simp [he]
   | missing => simp [configure]
   | directory => simp [configure]
   | present sfx c =>
@@ -931,9 +938,11 @@ theorem configure_fails_cleanly_partial (validate : Validate) (env dotenv : Kids
       case unknown => simp [configure]
       all_goals
         simp only [configure]
-        by_cases hv : validate (effective (combine options b) env dotenv) = true
-        · left; exact ⟨_, by simp [hv], hv⟩
-        · right; left; simp [hv]
+        by_cases he : encodableKids (combine options b) = true
+        · by_cases hv : validate (effective (combine options b) env dotenv) = true
+          · left; exact ⟨_, by simp [hv, he], hv⟩
+          · right; left; simp [hv, he]
+        · right; left; simp [he]
 
 /-- the hole is real: a YAML mapping with a non-string top-level key ends in a `TypeError` -/
 theorem configure_nonStringKey_counterexample (validate : Validate) :
@@ -949,8 +958,213 @@ laid over the environment -/
 theorem configure_ok_is_merge (validate : Validate) (env dotenv b options t : Kids) (sfx : Suffix)
     (h : configure validate env dotenv (.present sfx (.mapping b)) options = .ok t) :
     t = effective (combine options b) env dotenv := by
-  cases sfx <;> simp only [configure] at h <;> (try cases h) <;> (split at h <;> cases h) <;> rfl
+  cases sfx <;> simp only [configure] at h <;> (try cases h) <;> (split at h <;> try cases h) <;> (split at h <;> cases h) <;> rfl
 
+
+
+/-! ### texts that are not valid Unicode are refused in the merge, whichever source delivered them -/
+
+theorem encodableKids_set (k : String) (t : Tree) (l : Kids) (hk : encodableStr k = true) (ht : encodable t = true)
+    (hl : encodableKids l = true) : encodableKids (set k t l) = true := by
+  induction l with
+  | nil => simp [set, encodableKids, hk, ht]
+  | cons p l ih =>
+    obtain ⟨k', t'⟩ := p
+    simp only [encodableKids, Bool.and_eq_true] at hl
+    by_cases h : k' = k
+    · simp [set, h, encodableKids, hk, ht, hl.2]
+    · simp [set, h, encodableKids, hl.1.1, hl.1.2, ih hl.2]
+
+/-- what is found in a dictionary that passes the check passes it, and so does the key it is found under -/
+theorem encodable_of_lookup (l : Kids) (k : String) (t : Tree) (h : encodableKids l = true) (hl : lookup k l = some t) :
+    encodableStr k = true ∧ encodable t = true := by
+  induction l with
+  | nil => simp [lookup] at hl
+  | cons p l ih =>
+    obtain ⟨k', t'⟩ := p
+    simp only [encodableKids, Bool.and_eq_true] at h
+    simp only [lookup] at hl
+    split at hl
+    · rename_i e; cases hl; subst e; exact h.1
+    · exact ih h.2 hl
+
+theorem encodable_childKids (b : Kids) (k : String) (h : encodableKids b = true) : encodableKids (childKids (lookup k b)) = true := by
+  cases hl : lookup k b with
+  | none => simp [childKids, encodableKids]
+  | some t =>
+    cases t with
+    | leaf v => simp [childKids, encodableKids]
+    | node bb => simpa [childKids, encodable] using (encodable_of_lookup b k _ h hl).2
+
+mutual
+theorem encodable_combine_tree (t : Tree) : ∀ b : Kids, encodableKids b = true → encodable t = true →
+    match t with
+    | .leaf _ => True
+    | .node sub => encodableKids (combine sub b) = true := by
+  intro b hb ht
+  cases t with
+  | leaf v => trivial
+  | node sub =>
+    simp only
+    simp only [encodable] at ht
+    exact encodable_combine_kids sub b hb ht
+theorem encodable_combine_kids (o : Kids) : ∀ b : Kids, encodableKids b = true → encodableKids o = true →
+    encodableKids (combine o b) = true := by
+  intro b hb ho
+  cases o with
+  | nil => simpa [combine] using hb
+  | cons p o =>
+    obtain ⟨k, t⟩ := p
+    simp only [encodableKids, Bool.and_eq_true] at ho
+    cases t with
+    | leaf v =>
+      simp only [combine]
+      exact encodable_combine_kids o _ (encodableKids_set _ _ _ ho.1.1 ho.1.2 hb) ho.2
+    | node sub =>
+      simp only [combine]
+      have hsub := encodable_combine_tree (.node sub) (childKids (lookup k b)) (encodable_childKids b k hb) ho.1.2
+      simp only at hsub
+      exact encodable_combine_kids o _ (encodableKids_set _ _ _ ho.1.1 (by simpa [encodable] using hsub) hb) ho.2
+end
+
+/-- **valid texts stay valid**: the merge of two dictionaries that pass the check passes it -/
+theorem encodable_combine (o b : Kids) (ho : encodableKids o = true) (hb : encodableKids b = true) :
+    encodableKids (combine o b) = true := encodable_combine_kids o b hb ho
+
+mutual
+theorem combine_encodable_inv_tree (t : Tree) : ∀ b : Kids, wf t = true →
+    match t with
+    | .leaf _ => True
+    | .node sub => encodableKids (combine sub b) = true → encodableKids sub = true := by
+  intro b hw
+  cases t with
+  | leaf v => trivial
+  | node sub =>
+    simp only
+    rw [wf_node, Bool.and_eq_true] at hw
+    exact combine_encodable_inv_kids sub b hw.1 hw.2
+theorem combine_encodable_inv_kids (o : Kids) : ∀ b : Kids, wfKids o = true → nodupKeys o = true →
+    encodableKids (combine o b) = true → encodableKids o = true := by
+  intro b hw hnd h
+  cases o with
+  | nil => simp [encodableKids]
+  | cons p o =>
+    obtain ⟨k, t⟩ := p
+    simp only [wfKids, Bool.and_eq_true] at hw
+    simp only [nodupKeys, Bool.and_eq_true, Bool.not_eq_true'] at hnd
+    have hnone : lookup k o = none := lookup_none_of_not_mem _ _ hnd.1
+    cases t with
+    | leaf v =>
+      simp only [combine] at h
+      have hl : lookup k (combine o (set k (.leaf v) b)) = some (.leaf v) := by
+        rw [combine_lookup _ _ _ hnd.2, hnone]; simp [lookup_set_same]
+      have h1 := encodable_of_lookup _ _ _ h hl
+      have h2 := combine_encodable_inv_kids o _ hw.2 hnd.2 h
+      simp only [encodableKids, Bool.and_eq_true]
+      exact ⟨⟨h1.1, h1.2⟩, h2⟩
+    | node sub =>
+      simp only [combine] at h
+      have hl : lookup k (combine o (set k (.node (combine sub (childKids (lookup k b)))) b))
+          = some (.node (combine sub (childKids (lookup k b)))) := by
+        rw [combine_lookup _ _ _ hnd.2, hnone]; simp [lookup_set_same]
+      have h1 := encodable_of_lookup _ _ _ h hl
+      have hsub := combine_encodable_inv_tree (.node sub) (childKids (lookup k b)) hw.1
+      simp only at hsub
+      have h2 := combine_encodable_inv_kids o _ hw.2 hnd.2 h
+      simp only [encodableKids, Bool.and_eq_true]
+      exact ⟨⟨h1.1, by simpa [encodable] using hsub (by simpa [encodable] using h1.2)⟩, h2⟩
+end
+
+/-- **a text of the override that is not valid Unicode is in the merge**, at any depth, whatever the base holds: the override (the
+options dictionary, the `-o` options) is a source like the file -/
+theorem unencodable_override_stays (o b : Kids) (hw : wf (.node o) = true) (h : encodableKids o = false) :
+    encodableKids (combine o b) = false := by
+  rw [wf_node, Bool.and_eq_true] at hw
+  cases hc : encodableKids (combine o b) with
+  | false => rfl
+  | true => rw [combine_encodable_inv_kids o b hw.1 hw.2 hc] at h; cases h
+
+/-- the same path assigned twice: the second assignment replaces the first (whatever the first one put there) -/
+theorem assign_assign (p : List String) : ∀ (g : Kids) (w v : Val), p ≠ [] →
+    insertLeaf (insertLeaf g (p, w)) (p, v) = insertLeaf g (p, v) := by
+  induction p with
+  | nil => intro g w v hp; exact absurd rfl hp
+  | cons k ks ih =>
+    intro g w v _
+    cases ks with
+    | nil => simp [insertLeaf, nestKids, combine, set_set]
+    | cons k' ks' =>
+      rw [insertLeaf_cons g, insertLeaf_cons, lookup_set_same, set_set, insertLeaf_cons g]
+      simp only [childKids]
+      rw [ih _ w v (by simp)]
+
+theorem encodable_nest (p : List String) (v : Val) (hp : ∀ k ∈ p, encodableStr k = true) (hv : encodableVal v = true) :
+    encodableKids (nestKids p v) = true := by
+  induction p with
+  | nil => simp [nestKids, encodableKids]
+  | cons k ks ih =>
+    cases ks with
+    | nil => simp [nestKids, encodableKids, encodable, hp k (by simp), hv]
+    | cons k' ks' =>
+      have := ih (fun x hx => hp x (by simp [hx]))
+      simp [nestKids, encodableKids, encodable, hp k (by simp), this]
+
+/-- `badKeysKids` lists something iff the check fails: a refusal can always name a key -/
+theorem badKeys_nil_iff_tree (t : Tree) : ∀ path, (badKeysTree path t = [] ↔ encodable t = true) := by
+  intro path
+  match t with
+  | .leaf v => by_cases h : encodableVal v = true <;> simp [badKeysTree, encodable, h]
+  | .node ks => simpa [badKeysTree, encodable] using badKeys_nil_iff_kids ks path
+where
+  badKeys_nil_iff_kids (ks : Kids) : ∀ path, (badKeysKids path ks = [] ↔ encodableKids ks = true) := by
+    intro path
+    match ks with
+    | [] => simp [badKeysKids, encodableKids]
+    | (k, t) :: r =>
+      have h1 := badKeys_nil_iff_tree t (path ++ [k])
+      have h2 := badKeys_nil_iff_kids r path
+      by_cases hk : encodableStr k = true
+      · simp [badKeysKids, encodableKids, hk, h1, h2]
+      · simp [badKeysKids, encodableKids, hk]
+
+theorem badKeys_nil_iff (ks : Kids) : badKeysKids [] ks = [] ↔ encodableKids ks = true :=
+  badKeys_nil_iff_tree.badKeys_nil_iff_kids ks []
+
+/-- **the check is made on the merge**: with a configuration file that decodes to a mapping `b` and options `o`, `configure`
+refuses whenever the merge of the options into the file holds a text that is not valid Unicode, and otherwise hands the
+effective configuration to validation — a text of the file that the options replace does not count -/
+theorem configure_checks_the_merge (validate : Validate) (env dotenv b options : Kids) (sfx : Suffix) (hs : sfx ≠ .unknown) :
+    configure validate env dotenv (.present sfx (.mapping b)) options =
+      if encodableKids (combine options b) then
+        (if validate (effective (combine options b) env dotenv) then .ok (effective (combine options b) env dotenv) else .app 141)
+      else .app 141 := by
+  cases sfx <;> first | exact absurd rfl hs | (simp only [configure]; cases encodableKids (combine options b) <;> simp)
+
+/-- **every source is checked**: options (a dictionary, or what the `-o` texts denote) that hold a text that is not valid Unicode are
+refused with the configuration diagnostic — with any configuration file, without one, whatever the environment holds and
+whatever validation would say -/
+theorem configure_unencodable_options_refused (validate : Validate) (env dotenv b options : Kids) (sfx : Suffix) (hs : sfx ≠ .unknown)
+    (hw : wf (.node options) = true) (h : encodableKids options = false) :
+    configure validate env dotenv (.present sfx (.mapping b)) options = .app 141
+    ∧ configure validate env dotenv .absent options = .app 141 := by
+  constructor
+  · rw [configure_checks_the_merge _ _ _ _ _ _ hs, unencodable_override_stays options b hw h]; simp
+  · simp only [configure]
+    cases options.isEmpty <;> simp [unencodable_override_stays options [] hw h]
+
+/-- **an option that replaces a text of the file replaces it before the check**: the file assigns `w` (say, a text that is not valid
+Unicode) to the path `p` of an otherwise valid dictionary `g`, the option assigns a valid `v` to the same path — the outcome is that of
+the file `g` with `v` at `p` -/
+theorem overridden_file_text_not_refused (validate : Validate) (env dotenv g : Kids) (sfx : Suffix) (hs : sfx ≠ .unknown)
+    (p : List String) (w v : Val) (hp : p ≠ []) (hg : encodableKids g = true) (hk : ∀ k ∈ p, encodableStr k = true)
+    (hv : encodableVal v = true) :
+    configure validate env dotenv (.present sfx (.mapping (insertLeaf g (p, w)))) (nestKids p v) =
+      (if validate (effective (insertLeaf g (p, v)) env dotenv) then .ok (effective (insertLeaf g (p, v)) env dotenv) else .app 141) := by
+  rw [configure_checks_the_merge _ _ _ _ _ _ hs]
+  have e : combine (nestKids p v) (insertLeaf g (p, w)) = insertLeaf g (p, v) := assign_assign p g w v hp
+  rw [e]
+  have : encodableKids (insertLeaf g (p, v)) = true := encodable_combine _ _ (encodable_nest p v hk hv) hg
+  simp [this]
 
 /-! ### target readiness -/
 
@@ -1376,5 +1590,19 @@ private def exEdge : Kids := [("generate", .node [("java", .node [("function_pre
 #guard (match foldOptions ["a=1", "a.b=2", "a.c=[x,y]"] [] with
   | .ok t => kidsBeq t [("a", .node [("b", .leaf (.str "2")), ("c", .leaf (.strs ["x", "y"]))])] | .error _ => false)
 #guard (match foldOptions ["a=1", "oops"] [] with | .error .noEquals => true | _ => false)
+
+-- texts that are not valid Unicode (U+E0FF stands for the lone surrogate U+DCFF): refused from the options, from the file, not when replaced
+private def exBadOpt : Kids := [("generate", .node [("cpp", .node [("header_extension", .leaf (.str "h\uE0FF"))])])]
+private def exGoodOpt : Kids := [("generate", .node [("cpp", .node [("header_extension", .leaf (.str "hh"))])])]
+#guard wf (.node exBadOpt) && !encodableKids exBadOpt && encodableKids exBase && encodableKids exGoodOpt
+#guard (match configure (fun _ => true) [] [] (.present .json (.mapping exBase)) exBadOpt with | .app 141 => true | _ => false)
+#guard (match configure (fun _ => true) [] [] .absent exBadOpt with | .app 141 => true | _ => false)
+#guard (match configure (fun _ => true) [] [] (.present .yaml (.mapping (combine exBadOpt exBase))) [] with | .app 141 => true | _ => false)
+#guard (match configure (fun _ => true) [] [] (.present .yaml (.mapping (combine exBadOpt exBase))) exGoodOpt with
+  | .ok t => leafAt ["generate", "cpp", "header_extension"] (.node t) == some (.str "hh") | _ => false)
+#guard badKeysKids [] (combine exBadOpt exBase) == [["generate", "cpp", "header_extension"]]
+#guard badKeysKids [] [("a", .node [("k\uE000", .leaf (.strs ["x", "\uE7FF"]))])] == [["a"], ["a", "k\uE000"]]
+#guard insertLeaf (insertLeaf exBase (["generate", "cpp", "header_extension"], .str "h\uE0FF")) (["generate", "cpp", "header_extension"], .str "hh")
+  |> fun t => kidsBeq t (insertLeaf exBase (["generate", "cpp", "header_extension"], .str "hh"))
 
 end Pydjinni.Sys
